@@ -57,6 +57,22 @@ def _layouts(tier):
         ('S6', main(['<ta sa/>', ['<', W2, ' ', W2, '/>'], 'kx 1'])),
         ('S7', main(['kc ab', '<ta>', ['  ', W2, ' ', V2], '</ta>'])),
     ]
+    SS = lambda n: ['S', n]     # noqa
+    L += [
+        # ---- substitution faults inside included resources (1 and 2 levels)
+        ('S2', [['main.conf', ['kt 5', '%include inc.conf', 'zz top']],
+                ['inc.conf', ['# c', '', ['zz $', ['x', 2]]]]]),
+        ('S2', [['main.conf', ['# m', '%define ab 7', '<ta n1>', '  ka 1', '  %include d/inc.conf', '</ta>']],
+                ['d/inc.conf', ['', '%include ../e.conf']],
+                ['e.conf', ['# e', '# e', ['kb ${', W2, '}']]]]),
+        ('S2', [['main.conf', ['kt 5', '%include inc.conf']],
+                ['inc.conf', [['%define ', W2, ' $', W2], 'zz 1']]]),
+        # ---- lines made of whitespace the line reader must not count as line ends
+        ('S2', main([[SS(2)], 'kt 5', [SS(1), '#', SS(1)], '<ta n1>', [W2, ' ', V1, SS(1)], '  kb x', '</ta>'])),
+        ('S2', [['main.conf', [[SS(1), 'kt 5', SS(1)], '%include inc.conf', 'zz top']],
+                ['inc.conf', [[SS(2)], [SS(1), '<ta n1>'], [W2, ' ', V1], '</ta>']]]),
+        ('S2', main([['kt 5', SS(1)], [SS(1)], [['x', 3]], 'zz top'])),
+    ]
     if tier != 'quick':
         L += [
             ('S2', main(['kt 5', '<ta n1>', '  ka 1', [W2, ' ', V2], [W2, ' ', V1], '</ta>'])),
@@ -118,9 +134,9 @@ class C08(Harness):
                 if isinstance(line, str):
                     continue
                 for pi, part in enumerate(line):
-                    if isinstance(part, list) and part[0] in ('w', 'v', 'x'):
+                    if isinstance(part, list) and part[0] in ('w', 'v', 'x', 'S'):
                         nm = 'f%dl%dp%d' % (fi, li, pi)
-                        pred = {'w': P.word_pred, 'v': P.value_pred, 'x': _no_nl}[part[0]]
+                        pred = {'w': P.word_pred, 'v': P.value_pred, 'x': _no_nl, 'S': P.anyws_pred}[part[0]]
                         out[nm] = self.sym_str(eng, nm, part[1], pred)
         return out
 
